@@ -42,4 +42,5 @@ VARIANTS += [
 VARIANTS += [
     M('C12', 'exclusions-extended-by-characters', E(GT, "                    substrings.append(specific_string)", "                    substrings += specific_string"), rule='C12-WHOLESTR', key='substrings+=specific_string'),
     M('C12', 'refactor-exclusions-extended-by-one-item-list', E(GT, "                    substrings.append(specific_string)", "                    substrings += [specific_string]"), kind='refactor'),
+    M('C12', 'path-under-cwd-decided-by-prefix-alone', E(GT, "path.startswith(cwd + os.path.sep)", "path.startswith(cwd)"), rule='C12-JOINREPR', key='as_join_repr'),
 ]
